@@ -545,6 +545,14 @@ func (s *appState) envOp(d *driver, f []string) (out string) {
 			return "bad-op"
 		}
 		return "ok"
+	case "sendenabled":
+		// sendenabled <denomHex> <0|1>: the bank's per-denomination switch (what bank MsgSetSendEnabled sets)
+		raw, err := hex.DecodeString(f[1])
+		if err != nil {
+			return "bad-op"
+		}
+		a.BankKeeper.SetSendEnabled(ctx, string(raw), f[2] == "1")
+		return "ok"
 	case "hyp":
 		return s.hypOp(d, f[1:])
 	}
